@@ -9,6 +9,8 @@ statistics results additionally go through the Coq model C13/Model.v.'''
 import copy
 import enum
 import json
+import os
+import sys
 import pickle
 import re
 import struct
@@ -48,13 +50,13 @@ def _raw(arr):
     return arr.tobytes()
 
 
-def snap(obj, memo=None):
+def snap(obj, memo=None, ids=False):
     '''Nested tuples that identify the state of `obj` bit for bit: array
     buffers, dict key order (defaultdict contents and factory included),
     attribute dictionaries of objects, recursively.  Reads nothing through
     __getitem__ (so it cannot itself trigger a defaultdict insertion).'''
     if memo is None:
-        memo = {}
+        memo = {'ids': ids}      # ids: also record WHICH array object sits where (identity of the arrays)
     if obj is None or isinstance(obj, (bool, int, str, bytes)):
         if isinstance(obj, enum.Enum):
             return ('enum', type(obj).__name__, obj.name)
@@ -71,7 +73,7 @@ def snap(obj, memo=None):
         # raw buffer (in the array's own dtype and byte order) AND logical values (native byte order)
         native = obj.astype(obj.dtype.newbyteorder('='), copy=False) if obj.dtype.byteorder in '<>' else obj
         return ('nd', obj.dtype.str, obj.shape, _raw(obj), _raw(np.ascontiguousarray(native)),
-                bool(obj.flags.writeable))
+                bool(obj.flags.writeable), id(obj) if memo.get('ids') else 0)
     if isinstance(obj, np.generic):
         return ('ng', obj.dtype.str, _raw(obj))
     key = id(obj)
@@ -140,7 +142,21 @@ def _cast(arr, dtype):
         return arr.astype(dtp)
 
 
-def _dataset(shape, vals, errs, name, what='', layout='C', dtype=None):
+def _grid(n, k, mode):
+    '''the n+1 edges of dimension k: increasing / decreasing, regular / with very wide extreme bins (the
+    range-trimming of the plot post-treatment) / irregular / negative; always >= 3 edges when n >= 2'''
+    base = np.arange(n + 1, dtype=float) * (k + 1)
+    if 'wide' in mode and n >= 2:
+        base[0] -= 1e5
+        base[-1] += 1e7
+    if 'irr' in mode:
+        base = base ** 1.5 - 3.
+    if 'dec' in mode:
+        base = base[::-1].copy()
+    return base
+
+
+def _dataset(shape, vals, errs, name, what='', layout='C', dtype=None, grid='inc'):
     from valjean.eponine.dataset import Dataset
     if not shape:
         if dtype in (None, 'f8'):
@@ -148,7 +164,7 @@ def _dataset(shape, vals, errs, name, what='', layout='C', dtype=None):
         return Dataset(_cast(np.array(vals[0], dtype=float), dtype)[()], _cast(np.array(errs[0], dtype=float), dtype)[()],
                        name=name, what=what)
     bdt = dtype if dtype in ('>f8', 'f4', '>f4') else None
-    bins = OrderedDict((f'x{k}', _layout(_cast(np.arange(n + 1, dtype=float) * (k + 1), bdt),
+    bins = OrderedDict((f'x{k}', _layout(_cast(_grid(n, k, grid), bdt),
                                          layout if layout in 'SR' else 'C'))
                        for k, n in enumerate(shape))
     return Dataset(_layout(_cast(np.array(vals, dtype=float).reshape(shape), dtype), layout),
@@ -168,7 +184,8 @@ def build_test(case):
         whats = data.get('whats') or [''] * len(dnames)
         layouts = data.get('layouts') or ['C'] * len(dnames)
         dtypes = data.get('dtypes') or [None] * len(dnames)
-        dsets = [_dataset(shape, v, e, dnames[k], whats[k], layouts[k], dtypes[k])
+        grid = data.get('grid', 'inc')
+        dsets = [_dataset(shape, v, e, dnames[k], whats[k], layouts[k], dtypes[k], grid)
                  for k, (v, e) in enumerate(zip(data['vals'], data['errs']))]
         labels = data.get('labels')
         tname = data.get('tname')
@@ -187,7 +204,8 @@ def build_test(case):
         return cls(name=tname or kind, description=descr, test=stud, labels=labels)
     if kind == 'meta':
         from valjean.gavroche.diagnostics.metadata import TestMetadata
-        dmd = OrderedDict((f'sample{s}', {f'key{k}': v for k, v in enumerate(row) if v is not None})
+        snames = data.get('snames') or [f'sample{s}' for s in range(len(data['values']))]
+        dmd = OrderedDict((snames[s], {f'key{k}': v for k, v in enumerate(row) if v is not None})
                           for s, row in enumerate(data['values']))
         return TestMetadata(dmd, name=data.get('tname') or 'md', description=data.get('descr', ''),
                             labels=data.get('labels'))
@@ -310,6 +328,9 @@ def gen_data(rng, kind):
             [rng.choice(['', 'flux', 'dose']) for _ in range(nds)]
         data['tname'] = rng.choice([None, 'test', 'test', 'same', 'T1'])
         data['descr'] = rng.choice(['', '', 'a description', 'same'])
+        # the grids (bins) of the datasets: increasing mostly; else decreasing (lethargy, cosine...), with very
+        # wide extreme bins, irregular -- every dataset of a test owns its own arrays with the same numbers
+        data['grid'] = rng.choice(['inc'] * 5 + ['dec', 'dec', 'dec-wide', 'wide', 'dec-irr', 'irr'])
         # dtypes / byte orders of the arrays: native float64 mostly; else non-native ('>f8', '>f4', '>i8'),
         # narrower / wider floats, integers -- uniform or mixed per test
         dtr = rng.random()
@@ -333,9 +354,14 @@ def gen_data(rng, kind):
             data['msg'] = rng.choice(['shapes differ', '', 'boom'])
         return data
     if kind == 'meta':
-        nkeys = rng.randint(1, 4)
-        return {'values': [[rng.choice([1, 1, 2, 'x', None]) for _ in range(nkeys)]
-                           for _ in range(rng.randint(2, 3))], 'labels': gen_labels(rng),
+        nkeys = rng.randint(1, 5)
+        nsamp = rng.choice([2, 3, 3, 4, 4, 5])
+        snames = rng.choice([None, None, ['b', 'a', 'd', 'c', 'e'], ['run2', 'run10', 'run1', 'ref', 'x']])
+        rows = []
+        for s in range(nsamp):
+            pnone = 0.5 if s == 0 or rng.random() < 0.2 else 0.15     # keys absent from a sample
+            rows.append([None if rng.random() < pnone else rng.choice([1, 1, 2, 'x', 'y', 1.0]) for _ in range(nkeys)])
+        return {'values': rows, 'snames': snames[:nsamp] if snames else None, 'labels': gen_labels(rng),
                 'tname': rng.choice([None, 'test', 'same']), 'descr': rng.choice(['', 'same'])}
     allgood = rng.random() < 0.3
     tasks = []
@@ -499,9 +525,12 @@ def run_impl(ctx, case, steps):
     except Exception as exc:  # noqa
         fprint0 = ('exc', type(exc).__name__)
         ctx.count('fingerprint_raises_' + type(exc).__name__)
-    prev_after = initial
+    prev_after = snap(result, ids=True)
+    if fprint0 is not None and snap(result) != initial:
+        ctx.oracle_failure(f'reading the verdict and fingerprint(test) of a fresh {kind} result changes it: '
+                           f'{first_diff(initial, snap(result))} :: {case}', case, key='state-changed-by-read')
     for n, op in enumerate(case['ops']):
-        before = snap(result)
+        before = snap(result, ids=True)
         if before != prev_after:      # only the verdict and the fingerprint were read in between
             ctx.oracle_failure(f'reading the verdict and fingerprint(test) before operation {n} changes the {kind} '
                                f'result: {first_diff(prev_after, before)} :: {case}', case,
@@ -520,7 +549,7 @@ def run_impl(ctx, case, steps):
         except Exception as exc:  # noqa
             out = exc
             ctx.count('op_raises_' + type(exc).__name__)
-        after = snap(result)
+        after = snap(result, ids=True)
         if after != before:
             ctx.oracle_failure(f'operation {n} {op} changes the {kind} result: {first_diff(before, after)} '
                                f':: {case}', case, key='state-changed-by-' + op[0])
@@ -556,6 +585,82 @@ def run_impl(ctx, case, steps):
     return len(case['ops']) >= 2
 
 
+# ---------------------------------------------------------------------------
+# fresh interpreters with different string hash seeds
+
+def digest_case(case):
+    '''what one interpreter records for a case: verdict, full state of the result (dict orders included),
+    derived statistics, rendered tables'''
+    import hashlib
+    from valjean.javert import representation as rp
+    from valjean.javert.verbosity import Verbosity
+    from valjean.javert.rst import Rst
+
+    def sha(text):
+        return hashlib.sha1(text.encode('utf-8', 'replace')).hexdigest()[:12]
+
+    try:
+        _test, result = build_result(case)
+    except Exception as exc:  # noqa
+        return {'raises': type(exc).__name__}
+    out = {'verdict': bool(result), 'state': sha(repr(snap(result)))}
+    if hasattr(result, 'dict_res'):
+        out['dict_res'] = repr(result.dict_res)[:1500]
+        out['per_key'] = repr(result.per_key())[:800]
+    if hasattr(result, 'classify'):
+        out['classify'] = sha(repr(snap(result.classify)))
+    for rep, verb in (('Table', 'INTERMEDIATE'), ('Table', 'FULL_DETAILS'), ('Full', 'DEFAULT')):
+        try:
+            reprs = {'Table': rp.TableRepresenter, 'Full': rp.FullRepresenter}
+            lines = Rst(rp.Representation(reprs[rep](), Verbosity[verb])).format_result(result)
+            out[f'rst {rep} {verb}'] = sha('\n'.join(str(x) for x in lines))
+        except Exception as exc:  # noqa
+            out[f'rst {rep} {verb}'] = 'raises ' + type(exc).__name__
+    return out
+
+
+def child_main(path):
+    common.import_repo()
+    cases = json.load(open(path))
+    json.dump([digest_case(case) for case in cases], open(path + '.out.' + os.environ.get('PYTHONHASHSEED', 'x'), 'w'))
+
+
+def run_hash_seeds(ctx, cases):
+    '''the same cases evaluated in fresh child interpreters with PYTHONHASHSEED = 0, 1, 2, 3 and random:
+    whatever is recorded must be identical'''
+    import subprocess
+    meta = [c for c in cases if c['kind'] == 'meta']
+    others = [c for c in cases if c['kind'] != 'meta']
+    sample = meta[:150 if ctx.tier == 'quick' else 1500] + others[:60 if ctx.tier == 'quick' else 400]
+    path = os.path.join(ctx.wd(), 'hashseed_cases.json')
+    json.dump(sample, open(path, 'w'))
+    seeds = ['0', '1', '2', '3', 'random']
+    procs = []
+    for k, hs in enumerate(seeds):
+        env = dict(os.environ, PYTHONHASHSEED=hs)
+        tag = hs if hs != 'random' else 'random'
+        procs.append((tag, subprocess.Popen(
+            [sys.executable, '-W', 'ignore', os.path.abspath(__file__), '--child', path], env=env,
+            stdout=subprocess.PIPE, stderr=subprocess.STDOUT, text=True)))
+    results = {}
+    for tag, proc in procs:
+        out, _ = proc.communicate(timeout=900)
+        fname = path + '.out.' + tag
+        if proc.returncode != 0 or not os.path.exists(fname):
+            raise RuntimeError(f'child interpreter with PYTHONHASHSEED={tag} failed: {out[-800:]}')
+        results[tag] = json.load(open(fname))
+    ref = results['0']
+    for tag in seeds[1:]:
+        for case, a, b in zip(sample, ref, results[tag]):
+            if a != b:
+                diff = [k for k in sorted(set(a) | set(b)) if a.get(k) != b.get(k)]
+                ctx.oracle_failure(f'evaluating the {case["kind"]} test in interpreters with PYTHONHASHSEED=0 and '
+                                   f'{tag} records different {diff}: {str(a.get(diff[0]))[:300]} / '
+                                   f'{str(b.get(diff[0]))[:300]} :: {case}', case, key='hash-seed-dependent')
+    ctx.count('cases_in_5_interpreters', len(sample))
+    ctx.extra['hash_seed_interpreters'] = seeds
+
+
 def run(ctx):
     common.import_repo()
     ctx.rule = ('results of every kind (equal, approx-equal, Student, Bonferroni, Holm-Bonferroni, chi2, '
@@ -576,6 +681,7 @@ def run(ctx):
         nontrivial = run_impl(ctx, case, steps)
         nops += len(case['ops'])
         ctx.case_seen(case, nontrivial, sample_every=199)
+    run_hash_seeds(ctx, cases)
     shard_size = 100
     shards = []
     for k in range(0, len(steps), shard_size):
@@ -618,3 +724,8 @@ def replay(ctx, path):
     for v in ctx.violations:
         print('oracle:', v[1][:800])
     return 0
+
+
+if __name__ == '__main__':
+    if len(sys.argv) == 3 and sys.argv[1] == '--child':
+        child_main(sys.argv[2])
